@@ -51,7 +51,7 @@ def prepare(repo, scratch, overlay_names):
         os.makedirs(hdir, exist_ok=True)
         shutil.copy(os.path.join(VERIF, 'kani', hfile), os.path.join(hdir, hfile))
         with open(p, 'a') as f:
-            f.write('\n#[cfg(kani)]\n#[path = "%s"]\nmod %s;\n' % (os.path.join(hdir, hfile), modname))
+            f.write('\n#[cfg(kani)]\n#[path = "%s"]\npub(crate) mod %s;\n' % (os.path.join(hdir, hfile), modname))
         applied.append('O1 %s <- mod %s (%s)' % (host, modname, hfile))
     # O2: contract attributes above named functions
     for c in overlay.CONTRACTS:
@@ -87,48 +87,51 @@ def prepare(repo, scratch, overlay_names):
 
 
 def parse(log_text, names):
-    """Return dict harness -> dict(status, failed_checks, checks, covers)."""
-    res = {}
-    # split into per-thread streams
+    """Return dict harness -> dict(status, failed_checks, checks, covers).  With -j N every result block
+    is introduced by a line `Thread N: ` and belongs to the harness that thread announced last."""
     cur_by_thread = {}
     blocks = {}
     cur = None
-    thread = None
     for line in log_text.split('\n'):
         m = re.match(r'^(?:Thread (\d+): )?Checking harness (\S+?)\.\.\.', line)
         if m:
-            thread = m.group(1) or '0'
-            cur_by_thread[thread] = m.group(2)
+            t = m.group(1) or '0'
+            cur_by_thread[t] = m.group(2)
             blocks.setdefault(m.group(2), [])
-            cur = m.group(2)
+            cur = m.group(2) if m.group(1) is None else None
             continue
         m = re.match(r'^Thread (\d+): ?$', line)
         if m:
             cur = cur_by_thread.get(m.group(1))
             continue
+        if line.startswith('Manual Harness Summary') or line.startswith('Complete - '):
+            cur = None
         if cur:
             blocks[cur].append(line)
-            if line.startswith('Verification Time'):
-                cur = None if thread is not None and len(cur_by_thread) > 1 else cur
+    summary_failed = set(re.findall(r'Verification failed for - (\S+)', log_text))
+    res = {}
     for h, lines in blocks.items():
         t = '\n'.join(lines)
         st = 'unknown'
-        if 'VERIFICATION:- SUCCESSFUL' in t:
+        if 'VERIFICATION:- SUCCESSFUL' in t and h not in summary_failed:
             st = 'ok'
-        elif 'VERIFICATION:- FAILED' in t:
+        elif 'VERIFICATION:- FAILED' in t or h in summary_failed:
             st = 'failed'
         failed = re.findall(r'Failed Checks: (.*)\n File: "([^"]*)", line (\d+)', t)
         fc = ['%s @ %s:%s' % (a, os.path.basename(b), c) for a, b, c in failed]
         fc += [x for x in re.findall(r'Failed Checks: (.*)', t) if not any(x in y for y in fc)]
         m = re.search(r'\*\* (\d+) of (\d+) failed', t)
         checks = int(m.group(2)) if m else 1
+        nfailed = int(m.group(1)) if m else None
         m = re.search(r'\*\* (\d+) of (\d+) cover properties satisfied', t)
         covers = (int(m.group(1)), int(m.group(2))) if m else None
         unwind_fail = 'unwinding assertion' in t and st == 'failed'
         tm = re.search(r'Verification Time: ([\d.]+)s', t)
-        res[h] = dict(status=st, failed_checks=fc, checks=checks, covers=covers,
+        crashed = st == 'failed' and not fc and (nfailed in (0, None))
+        res[h] = dict(status='unknown' if crashed else st, failed_checks=fc, checks=checks, covers=covers,
                       unwind_fail=unwind_fail, time_s=float(tm.group(1)) if tm else None,
-                      tail=t[-1500:] if st != 'ok' else None)
+                      tail=t[-1500:] if st != 'ok' else None,
+                      crash=('CBMC did not complete: ' + ' '.join(x for x in lines if 'CBMC' in x or 'memory' in x)[:300]) if crashed else None)
     return res
 
 
@@ -185,7 +188,7 @@ def run_groups(pid, groups, tier, repo, scratch, seed):
                     rec['reason'] = 'vacuity guard: only %d of %d cover properties satisfied' % r['covers']
                 if r['status'] == 'unknown':
                     rec['status'] = 'inconclusive'
-                    rec['reason'] = 'cbmc did not finish (memory/time limit?)'
+                    rec['reason'] = r.get('crash') or 'cbmc did not finish (memory/time limit?)'
                 if rec['status'] == 'failed':
                     # assertion messages may start with the property ids they encode ("C04,C03: ...");
                     # checks without such a prefix (CBMC built-ins) count for all tags of the harness
